@@ -17,7 +17,18 @@ SpecialNums == { <<"2","1","4","7","4","8","3","6","4","7">>, <<"2","1","4","7",
                  <<"9","2","2","3","3","7","2","0","3","6","8","5","4","7","7","5","8","0","7">>,
                  <<"9","2","2","3","3","7","2","0","3","6","8","5","4","7","7","5","8","0","8">>,
                  <<"1","e","3","0">>, <<"n","a","n">>, <<"i","n","f">>, <<"0","x","1","0">>, <<"1",".","2","5">>,
-                 <<"-","1">>, <<"1","2","a","b","c">>, <<"0","0","7">>, <<"1","5">> }
+                 <<"-","1">>, <<"1","2","a","b","c">>, <<"0","0","7">>, <<"1","5">>,
+                 \* around 2^32 and 2^64: a reader that narrows or wraps turns these into small numbers
+                 <<"4","2","9","4","9","6","7","2","9","5">>,
+                 <<"4","2","9","4","9","6","7","2","9","6">>,
+                 <<"4","2","9","4","9","6","7","3","2","6">>,
+                 <<"8","5","8","9","9","3","4","5","9","2">>,
+                 <<"-","4","2","9","4","9","6","7","2","4","6">>,
+                 <<"-","2","1","4","7","4","8","3","6","4","8">>,
+                 <<"-","2","1","4","7","4","8","3","6","4","9">>,
+                 <<"1","8","4","4","6","7","4","4","0","7","3","7","0","9","5","5","1","6","1","5">>,
+                 <<"1","8","4","4","6","7","4","4","0","7","3","7","0","9","5","5","1","6","1","6">>,
+                 <<"1","8","4","4","6","7","4","4","0","7","3","7","0","9","5","5","1","6","4","6">> }
 SpecialSizes == { <<"1",".","5","G"," ","3","2","K">>, <<"1",".","5","M"," ","3","2","K"," ","5","1","2">>,
                   <<"8","1","9","2">>, <<"1","e","3">>, <<"n","a","n">>, <<"i","n","f">>, <<"0","x","1","0">>,
                   <<"9","9","9","9","9","9","9","9","9","9","9","T">>, <<"8","3","8","8","6","0","8","T">>,
